@@ -125,7 +125,18 @@ pub fn run(tier: Tier) -> i32 {
     let max_len = tier.pick(6, 7);
     let mut st = par_explore(us.len(), |ui, st| {
         let u = &us[ui];
-        let sentences = all_strings(&u.alphabet, max_len);
+        let mut sentences = all_strings(&u.alphabet, max_len);
+        // space runs around 255 / 256 characters (every 6th dictionary)
+        if ui % 6 == 0 {
+            for n in [255usize, 256, 257, 300] {
+                let sp = " ".repeat(n);
+                let wide = "\u{3000}".repeat(n);
+                for s in [format!("a{sp}b"), format!("{sp}ab"), format!("ab{sp}"), sp.clone(), format!("a{wide}b"), format!("ab{sp}c{sp}")] {
+                    sentences.push(s);
+                }
+            }
+            st.count("dictionaries_with_space_runs_beyond_255");
+        }
         for &opts in &u.opts {
             let (d, rd) = u.build().unwrap_or_else(|e| {
                 println!("MACHINERY: {} does not build: {e}", u.name);
@@ -277,6 +288,7 @@ pub fn run(tier: Tier) -> i32 {
             "grouped_unknown_words_adjacent_to_a_gap",
             "sentences_of_spaces_only_or_empty",
             "ignore_space_without_SPACE_category",
+            "dictionaries_with_space_runs_beyond_255",
         ],
     )
 }
